@@ -29,13 +29,15 @@ pub enum Sym {
     Initialized,
     Supported,
     UnknownRequest,
+    /// an unknown request in the protocol-reserved `$/` namespace
+    DollarRequest,
     DocNotification,
     UnknownNotification,
     Shutdown,
     Exit,
 }
 
-pub const SYMS: [Sym; 8] = [Sym::Initialize, Sym::Initialized, Sym::Supported, Sym::UnknownRequest, Sym::DocNotification, Sym::UnknownNotification, Sym::Shutdown, Sym::Exit];
+pub const SYMS: [Sym; 9] = [Sym::Initialize, Sym::Initialized, Sym::Supported, Sym::UnknownRequest, Sym::DollarRequest, Sym::DocNotification, Sym::UnknownNotification, Sym::Shutdown, Sym::Exit];
 
 /// well-formed params for one of the 13 supported requests
 pub fn supported_params(method: &str, uri: &str, line: u32, character: u32) -> Value {
@@ -73,7 +75,8 @@ pub fn build_message(sym: Sym, id: i64, s: &mut Src) -> Message {
             let m = SUPPORTED[s.below(SUPPORTED.len())];
             Message { sym, json: session::request(id, m, supported_params(m, uri, s.below(7) as u32, s.below(12) as u32)), id: Some(id) }
         }
-        Sym::UnknownRequest => Message { sym, json: session::request(id, *s.pick(&["workspace/symbol", "foo/bar", "textDocument/documentColor"]), json!({})), id: Some(id) },
+        Sym::UnknownRequest => Message { sym, json: session::request(id, *s.pick(&["workspace/symbol", "foo/bar", "textDocument/documentColor", "$/unknownRequest"]), json!({})), id: Some(id) },
+        Sym::DollarRequest => Message { sym, json: session::request(id, "$/unknownRequest", json!({})), id: Some(id) },
         Sym::DocNotification => {
             let j = match s.below(3) {
                 0 => session::notification("textDocument/didOpen", json!({ "textDocument": { "uri": uri, "languageId": "spl", "version": 1, "text": DOC_TEXT } })),
@@ -135,7 +138,7 @@ pub fn model(msgs: &[Message]) -> (Vec<(i64, Expect)>, Option<i32>, bool, bool) 
                 phase = Phase::Shut;
             }
             (Phase::Main, Sym::Supported, Some(id)) => out.push((id, Expect::Result)),
-            (Phase::Main, Sym::UnknownRequest, Some(id)) => out.push((id, Expect::Error(vec![-32601]))),
+            (Phase::Main, Sym::UnknownRequest | Sym::DollarRequest, Some(id)) => out.push((id, Expect::Error(vec![-32601]))),
             (Phase::Main, Sym::Exit, None) => phase = Phase::Exited(1),
             (Phase::Main, _, _) => {}
             (Phase::Shut, _, Some(id)) => {
